@@ -186,7 +186,7 @@ def clone_scenario(ctx):
     guesses = [(Sym("g", 0), Sym("v", 0)), (Sym("g", 1), Sym("v", 1))]
     me = fresh_obj("self", _is_original=True, _stages=[], _signals={}, qstates=[Sym("q", 0)], T=phT, t0=pht0, t=pht, _placeholders={K(k): v for k, v in tpl_ph}, _constraints={g: list(v) for g, v in cons.items()},
                    _objective=Sym("objective"), _initial={K(k): v for k, v in guesses}, _offsets={K(Sym("off", 0)): (Sym("oe", 0), 1)},
-                   _method=fresh_obj("method", T=Sym("mT"), t0=Sym("mt0")), _T=Sym("_T"), _t0=Sym("_t0"))
+                   _method=fresh_obj("method", T=Sym("mT"), t0=Sym("mt0"), opti=Sym("live_opti"), transcription=Sym("live_state")), _T=Sym("_T"), _t0=Sym("_t0"))
     ret = fresh_obj("ret", T=Sym("retT"), t0=Sym("rett0"), t=Sym("rett"), _placeholders={}, _initial={}, _constraints={})
     subs = []
 
@@ -199,7 +199,15 @@ def clone_scenario(ctx):
     def h_copy(sim, recv, args, kwargs, n):
         x = args[0]
         return Obj(x.name + "'", dict(x.attrs)) if isinstance(x, Obj) else Sym("copy", freeze(x))
-    hooks = {"substitute": h_substitute, "ca.substitute": h_substitute, "is_equal": lambda s_, r, a, k, n: freeze(a[0]) == freeze(a[1]), "copy": h_copy, "deepcopy": h_copy,
+    def h_release(what):
+        def h(sim, recv, args, kwargs, n):
+            if isinstance(recv, Obj):
+                for a_ in what:
+                    recv.attrs[a_] = None
+            return None
+        return h
+    hooks = {".main_untranscribe": h_release(["opti"]), ".untranscribe": h_release(["transcription"]), ".clean": h_release(["transcription"]),
+             "substitute": h_substitute, "ca.substitute": h_substitute, "is_equal": lambda s_, r, a, k, n: freeze(a[0]) == freeze(a[1]), "copy": h_copy, "deepcopy": h_copy,
              "Stage": lambda s_, r, a, k, n: ret, "defaultdict": lambda s_, r, a, k, n: {}, "HashDict": lambda s_, r, a, k, n: {},
              "HashOrderedDict": lambda s_, r, a, k, n: ({freeze(x): y for x, y in (s_.iterable(a[0], n) if not isinstance(a[0], (list, tuple, dict)) else (a[0].items() if isinstance(a[0], dict) else a[0]))} if a else {})}
     truth = {"isinstance(ph_expr, MX)": True, "'T' not in kwargs": True, "'t0' not in kwargs": True, "'T' in kwargs": False, "'t0' in kwargs": False}
@@ -412,3 +420,23 @@ def r12_9(ctx):
     ctx.check(ok, "DirectMethod.eval_top pairs global variables with self.V and global parameters with self.P", detail="a parent-level variable and parameter are substituted crosswise in coupling constraints and objective",
               expected="substitute(expr, [variables[''], parameters['']], [self.V, self.P]) in the same order", found="from %s to %s" % (src, dst), fi=f, node=c, sample={"from": src, "to": dst})
     ctx.check(ast.unparse(c.args[0]) in ("MX(expr)", "expr"), "DirectMethod.eval_top substitutes in the expression it was given", detail="eval_top", expected="substitute(MX(expr), ...)", found=ast.unparse(c.args[0]), fi=f)
+
+
+@rule("R12.10", min_instances=3, desc="a stage made from a template that was transcribed on its own (a solved Ocp used as template) starts from an un-transcribed private copy of the method: no Opti, no transcription state of the template's solve (simulated clone)")
+def r12_10(ctx):
+    """D83: clone() deep-copied the template's method together with its live Opti; SplineMethod (and the method of a stage that
+    declared none) wrote the clone's path constraints into that stale copy: 10 of 14 rows silently missing from the NLP."""
+    from ..layout import Obj, LayoutUnknown
+    try:
+        f, out, ret, subs, tpl_ph, cons, guesses = clone_scenario(ctx)
+    except LayoutUnknown as e:
+        raise AnalysisError("Stage.clone could not be simulated: %s" % e)
+    m = ret.attrs.get("_method")
+    ctx.check(isinstance(m, Obj) and m.name != "method", "clone gives the new stage a private copy of the template's method", detail="method object shared between template and clone", expected="ret._method = deepcopy(self._method)",
+              found=getattr(m, "name", str(m)), fi=f)
+    if not isinstance(m, Obj):
+        return
+    ctx.check(m.attrs.get("opti") is None, "the clone's method holds no Opti of the template's own solve", detail="constraints of the new stage are written into a stale copy of the template's Opti and never reach the NLP",
+              expected="ret._method.main_untranscribe(ret) (opti = None) after the deep copy", found="opti = %s" % (m.attrs.get("opti"),), fi=f)
+    ctx.check(m.attrs.get("transcription") is None, "the clone's method holds no transcription state of the template's own solve", detail="stale variable / constraint lists of the template's solve in the new stage's method",
+              expected="ret._method.untranscribe(ret) / clean() after the deep copy", found="state = %s" % (m.attrs.get("transcription"),), fi=f)
